@@ -270,6 +270,24 @@ sessions excepted, see `ReleasedAtReturn`), and the shard locks are leaves of th
 theorem C09_generated_order : ReleasedAtReturn locksetTable ∧ ShardLocksLeaf shardTable := by
   decide
 
+set_option maxRecDepth 100000 in
+/-- The mapping state of `fio.MMap` (`activeMap`, `endOff`, `virtualSize`) is guarded by the RWMutex
+inside `MMap` (fix c217d74: `Read` re-creates the mapping after `ResetFileSize`, and reads of older
+files do not hold `db.mu`).  On the table regenerated from the current `fio/mmap.go` (methods
+`Read/Write/Sync/Close/Size/ResetFileSize/Truncate`, `remap` and `resetFileSize` inlined): every
+write of the three fields happens with `m.mu` in W mode, every read in R or W mode, no method
+re-acquires the mutex while holding it, and every return releases it.  `C09_lockset` applied to
+this table: no two co-enabled steps of different threads access one of these fields in conflict. -/
+theorem C09_generated_mmap :
+    Disciplined mmapTable ∧ NoSelfDeadlock mmapTable ∧ ReleasedAtReturn mmapTable ∧
+    (mmapTable.any fun r => r.action == "write:activeMap") = true ∧
+    (mmapTable.all fun r => r.action != "missing") = true := by
+  decide
+
+/-- not vacuous: the shape before the repair (`Read` remaps without any lock) is rejected -/
+example : ¬ Disciplined [⟨"MMap.Read", 0, "read:virtualSize", .none, 0⟩, ⟨"MMap.Read", 1, "write:endOff", .none, 0⟩,
+                         ⟨"MMap.Read", 2, "write:activeMap", .none, 0⟩, ⟨"MMap.Read", 3, "ret", .none, 0⟩] := by decide
+
 /-- the predicates are not vacuous: the original `DB.Sync` (reads `activeFile` without the lock),
 a `Stat` that would write under the read lock, and a method that locks twice are rejected -/
 example :
